@@ -1,8 +1,8 @@
 CONSTANTS
   Prog <- P_hb5
   Mult = 32
-  MaxW = 2
-  GS = 1
+  MaxW = 1
+  GS = 2
   SS = 2
   RingCap = 2
   SpinCheck = 2
